@@ -59,12 +59,30 @@ Theorem C19_branches_equiv : forall (g : graph) (lvl : nat -> nat) (a : N -> boo
 Proof. intros g lvl a s fuel c bs Hac Hs. exact (eb_sound g lvl Hac a s Hs fuel [] c bs (fun x (H : In x []) => match H with end)). Qed.
 Print Assumptions C19_branches_equiv.
 
-(* on an acyclic graph no enumerated branch is empty: findall's `proof_node = FALSE` for an empty
-   branch only fires for a FALSE result key *)
-Theorem C19_branches_nonempty : forall (g : graph) (lvl : nat -> nat) (fuel : nat) (c : Z) (bs : list (Z * branch)),
-  acyclic_by lvl g -> eb g fuel [] c = Some bs -> forall mb, In mb bs -> snd mb <> [].
-Proof. intros g lvl fuel c bs Hac. exact (eb_nonempty g lvl Hac fuel [] c bs (fun x (H : In x []) => match H with end)). Qed.
+(* no enumerated branch is empty, on ANY graph (the repaired cycle guard yields no branch at all):
+   findall's `proof_node = FALSE` for an empty branch only fires for a FALSE result key *)
+Theorem C19_branches_nonempty : forall (g : graph) (fuel : nat) (c : Z) (bs : list (Z * branch)),
+  eb g fuel [] c = Some bs -> forall mb, In mb bs -> snd mb <> [].
+Proof. intros g fuel c bs. exact (eb_nonempty_gen g fuel [] c bs). Qed.
 Print Assumptions C19_branches_nonempty.
+
+(* CYCLIC formulas.  Soundness of every branch under every supported valuation ... *)
+Theorem C19_branches_sound_any_graph : forall (g : graph) (a : N -> bool) (s : nat -> bool)
+    (fuel : nat) (c : Z) (bs : list (Z * branch)),
+  supported g a s -> eb g fuel [] c = Some bs ->
+  existsb (fun mb => bval s (snd mb)) bs = true -> lit_val s c = true.
+Proof. intros g a s fuel c bs Hs. exact (eb_sound_gen g a s Hs fuel [] c bs). Qed.
+Print Assumptions C19_branches_sound_any_graph.
+
+(* ... and equivalence with the node in every model of the formula in the sense of BoolGraph.is_model
+   (s = least fixpoint of its own reduct: the least model of a positive cyclic formula, a stable model
+   in general): every true node has a proof that never revisits a node, the guard only cuts the others *)
+Theorem C19_branches_equiv_cyclic : forall (g : graph) (a : N -> bool) (s : nat -> bool)
+    (fuel : nat) (c : Z) (bs : list (Z * branch)),
+  is_model g a s -> eb g fuel [] c = Some bs ->
+  existsb (fun mb => bval s (snd mb)) bs = lit_val s c.
+Proof. intros g a s fuel c bs Hm. exact (eb_equiv_model g a s Hm fuel c bs). Qed.
+Print Assumptions C19_branches_equiv_cyclic.
 
 (* the model does not run out of fuel / hit an exception on well-formed acyclic graphs *)
 Theorem C19_branches_total : forall (g : graph) (lvl : nat -> nat) (fuel : nat) (c : Z),
@@ -123,9 +141,35 @@ Theorem C19_findall_lists_partition : forall (T : Type) (tv : Z -> bool) (cn : l
 Proof.
   intros T tv cn g lvl a s pn fuel results ps Hac Hs Hps Hpn Hcn sorted out.
   split; [unfold findall_model; rewrite Hps; reflexivity|].
-  exact (findall_lists_partition tv cn g lvl a s pn Hac Hs fuel results ps Hps Hpn Hcn).
+  exact (findall_lists_partition tv cn g s pn
+           (fun fuel' c bs => eb_sound g lvl Hac a s Hs fuel' [] c bs (fun x (H : In x []) => match H with end))
+           fuel results ps Hps Hpn Hcn).
 Qed.
 Print Assumptions C19_findall_lists_partition.
+
+(* the same for CYCLIC findall targets (goals defined by recursion through a cycle): s is a model
+   of g in the sense of BoolGraph.is_model; no acyclicity hypothesis *)
+Theorem C19_findall_lists_partition_cyclic : forall (T : Type) (tv : Z -> bool) (cn : list key -> key)
+    (g : graph) (a : N -> bool) (s : nat -> bool) (pn : branch -> key)
+    (fuel : nat) (results : list (T * key)) (ps : list (proof T)),
+  is_model g a s ->
+  all_proofs g fuel results = Some ps ->
+  (forall p, In p ps -> p_branch p <> [] -> val tv (pn (p_branch p)) = bval s (p_branch p)) ->
+  cn_ok tv cn (findall_lst pn (sort_mx ps)) ->
+  let sorted := sort_mx ps in
+  let out := findall_out cn (findall_lst pn sorted) in
+  findall_model g fuel pn cn results = Some out /\
+  length (filter (fun e => val tv (snd e)) out) = 1 /\
+  (forall l node, In (l, node) out -> val tv node = true ->
+     l = map p_term (filter (fun p => pval s (p_branch p)) sorted)) /\
+  (forall t, In t (map p_term (filter (fun p => pval s (p_branch p)) sorted)) <->
+             exists k, In (t, k) results /\ key_val s k = true).
+Proof.
+  intros T tv cn g a s pn fuel results ps Hm Hps Hpn Hcn sorted out.
+  split; [unfold findall_model; rewrite Hps; reflexivity|].
+  exact (findall_lists_partition tv cn g s pn (eb_equiv_model g a s Hm) fuel results ps Hps Hpn Hcn).
+Qed.
+Print Assumptions C19_findall_lists_partition_cyclic.
 
 (* all/3 (allow_none = false) and all_or_none/3 (allow_none = true): the results are used as they
    come (no expansion); the empty list is skipped unless allow_none, so that under an assignment
@@ -205,3 +249,15 @@ Example C19_findall_example_result : forall a0 a1 : bool,
              (findall_model ex_g (default_fuel ex_g) ex_pn ex_cn ex_results)
   = Some (8, [(if negb a0 then [10%Z] else []) ++ (if a1 then [20%Z] else []) ++ (if a0 && a1 then [10%Z] else [])]).
 Proof. intros [|] [|]; vm_compute; reflexivity. Qed.
+
+(* the cyclic findall_target of  r(X) :- e(a,X).  r(X) :- r(Y), e(Y,X).  (edges a-b, b-c, c-b, a-c):
+   node 3 = r(b), node 4 = r(c).  The branch e(b,c),e(c,b) of the pre-fix code is gone; under the
+   assignment {e(b,c), e(c,b)} the least model has r(b) false and no branch is true *)
+Definition ex_cyc : graph :=
+  [NAtom 0; NAtom 1; NOr [1; 8]; NOr [2; 6]; NAtom 2; NAnd [3; 5]; NAtom 3; NAnd [4; 7]]%Z.
+Example C19_branches_example_cyclic :
+  eb ex_cyc (default_fuel ex_cyc) [] 3 = Some [(1, [1]); (8, [2; 7])]%Z /\
+  eb ex_cyc (default_fuel ex_cyc) [] 4 = Some [(2, [2]); (6, [1; 5])]%Z /\
+  is_model ex_cyc (fun id => (id =? 2)%N || (id =? 3)%N) (vget (sem ex_cyc (fun id => (id =? 2)%N || (id =? 3)%N))) /\
+  lit_val (vget (sem ex_cyc (fun id => (id =? 2)%N || (id =? 3)%N))) 3 = false.
+Proof. split; [reflexivity|]. split; [reflexivity|]. split; [apply is_modelb_sound; vm_compute; reflexivity|reflexivity]. Qed.
